@@ -353,6 +353,15 @@ def run_shard(d):
                 for dd in (1, 2):
                     for gap in (0, 30):
                         run(segs, dd, ":", gap, False, "mode-switch")
+        if d["len"] < 3:
+            # (quick tier) back to the first mode after one segment in another mode
+            for mid in menu:
+                for last in menu:
+                    if mid[0] != first[0] and last[0] == first[0]:
+                        segs = relabel([first, mid, last])
+                        for dd in (1, 2):
+                            for gap in (0, 30):
+                                run(segs, dd, ":", gap, False, "mode-switch")
     res = acc.result()
     res["extra"] = {"state_hashes": sorted(states)}
     return res
